@@ -17,27 +17,46 @@ theorem consts_pinned :
     Gen.Consts.saveTiffAxes = "ZXYC" ∧
     Gen.Consts.axesOrder = [('X', 0), ('Y', 1), ('Z', 2), ('C', 3), ('I', 2)] ∧
     Gen.Consts.uintMax = [("np.dtype(np.uint8)", 255), ("np.dtype(np.uint16)", 65535), ("np.dtype(np.uint32)", 4294967295),
-                          ("np.dtype(np.uint64)", 18446744073709551615)] := by
-  sorry
+                          ("np.dtype(np.uint64)", 18446744073709551615)] := ⟨rfl, rfl, rfl⟩
+
+/-! ### closed evaluations used below -/
+theorem argsort4 : argsort [2, 0, 1, 3] = [1, 2, 0, 3] := by
+  simp [argsort, List.mergeSort, List.MergeSort.Internal.splitInTwo, List.zipIdx]
+
+theorem argsort3 : argsort [2, 0, 1] = [1, 2, 0] := by
+  simp [argsort, List.mergeSort, List.MergeSort.Internal.splitInTwo, List.zipIdx]
+
+theorem savedAxes_eq : savedAxes = ['Z', 'X', 'Y', 'C'] := by decide +kernel
+
+theorem ao_X : axisOrder 'X' = some 0 := by decide +kernel
+
+theorem ao_Y : axisOrder 'Y' = some 1 := by decide +kernel
+
+theorem ao_Z : axisOrder 'Z' = some 2 := by decide +kernel
+
+theorem ao_C : axisOrder 'C' = some 3 := by decide +kernel
+
+theorem ao_Q : axisOrder 'Q' = none := by decide +kernel
 
 /-- saving moves the Z axis to the front: element `(x, y, z, c)` is written at `(z, x, y, c)` -/
 theorem save_puts_z_first (x y z c : Nat) : saveIdx [x, y, z, c] = [z, x, y, c] := by
-  sorry
+  simp [saveIdx, moveaxisIdx]
 
 /-- **axes round trip**: for every `(X, Y, Z, C)` index, reading back with the axes string that was written
 returns the element to where it was — for every shape (size-1 axes and C ∈ {1, 3} included, since nothing
 depends on the sizes) -/
 theorem axes_roundtrip (x y z c : Nat) : loadIdx savedAxes (saveIdx [x, y, z, c]) = some [x, y, z, c] := by
-  sorry
+  rw [save_puts_z_first, savedAxes_eq]
+  simp [loadIdx, ao_X, ao_Y, ao_Z, ao_C, argsort4, transposeIdx]
 
 /-- a 3-axis file (`ZXY`, no channel axis) comes back as `(X, Y, Z)` -/
 theorem axes_roundtrip_3d (x y z : Nat) : loadIdx ['Z', 'X', 'Y'] [z, x, y] = some [x, y, z] := by
-  sorry
+  simp [loadIdx, ao_X, ao_Y, ao_Z, argsort3, transposeIdx]
 
 /-- an axis letter the table does not know makes the permutation undefined (the code then falls back to
 `ZXYC` with a warning) -/
 theorem unknown_axis (idx : List Nat) : loadIdx ['Z', 'Q', 'Y', 'C'] idx = none := by
-  sorry
+  simp [loadIdx, ao_Z, ao_Q]
 
 /-! ## rescaling -/
 
@@ -48,18 +67,36 @@ theorem rescale_table (m m' : Nat) :
     saveFactor (.uint m) (.uint m') = (1, 1) ∧ saveFactor .float .float = (1, 1) ∧
     loadFactor (.uint m) .float = (1, m) ∧ loadFactor .float (.uint m) = (m, 1) ∧
     loadFactor (.uint m) (.uint m') = (1, 1) ∧ loadFactor .float .float = (1, 1) := by
-  sorry
+  refine ⟨rfl, rfl, rfl, rfl, rfl, rfl, rfl, rfl⟩
 
 /-- **uint → float → uint is the identity on exact values** -/
 theorem uint_float_uint (m v : Nat) (hm : 0 < m) (hv : v ≤ m) :
     toUint (((v : Rat) * ((1 : Rat) / m)) * m) = v := by
-  sorry
+  have _ := hv
+  have hm' : (m : Rat) ≠ 0 := by exact_mod_cast (by omega : m ≠ 0)
+  have : ((v : Rat) * ((1 : Rat) / m)) * m = ((v : Int) : Rat) := by
+    field_simp
+    simp
+  rw [this]
+  exact Rat.floor_intCast _
 
 /-- float → uint → float loses at most one unit of `1 / UINT_MAX` (truncation) -/
 theorem float_uint_float (m : Nat) (hm : 0 < m) (x : Rat) (h0 : 0 ≤ x) (h1 : x ≤ 1) :
     let back := ((toUint (x * m) : Int) : Rat) * ((1 : Rat) / m)
     back ≤ x ∧ x - back < (1 : Rat) / m := by
-  sorry
+  have _ := h0; have _ := h1
+  have hm' : (0 : Rat) < m := by exact_mod_cast hm
+  have hle := Rat.floor_le (x * m)
+  have hlt := Rat.lt_floor_add_one (x * m)
+  push_cast at hlt
+  simp only [toUint]
+  constructor
+  · rw [mul_one_div, div_le_iff₀ hm']; exact hle
+  · rw [mul_one_div, ← sub_lt_iff_lt_add] at *
+    rw [lt_div_iff₀ hm']
+    have : (x - ((x * m).floor : Rat) / m) * m = x * m - ((x * m).floor : Rat) := by
+      field_simp
+    rw [this]; linarith
 
 /-! ## the voxel grid -/
 
@@ -69,14 +106,83 @@ theorem grid_covers (lo hi res : Rat) (hres : 0 < res) :
     let cs := axisCentres lo hi res
     (∀ i (h : i < cs.length), cs[i] = lo + ((i : Rat) + 1 / 2) * res ∧ lo < cs[i] ∧ cs[i] < hi) ∧
     hi ≤ lo + ((cs.length : Rat) + 1 / 2) * res := by
-  sorry
+  intro cs
+  have hlen : cs.length = ((hi - (lo + res / 2)) / res).ceil.toNat := by simp [cs, axisCentres]
+  have hget : ∀ i (h : i < cs.length), cs[i] = lo + res / 2 + (i : Rat) * res := by
+    intro i h; simp [cs, axisCentres]
+  set q := (hi - (lo + res / 2)) / res with hq
+  have hqle : q ≤ (q.ceil : Rat) := Rat.le_ceil
+  constructor
+  · intro i h
+    rw [hget i h]
+    rw [hlen] at h
+    have hi0 : (0 : Rat) ≤ (i : Rat) := Nat.cast_nonneg i
+    have hlt : ((i : Int) : Rat) < q := Rat.lt_ceil_iff.mp (by omega)
+    have hlt' : (i : Rat) < q := by simpa using hlt
+    rw [hq, lt_div_iff₀ hres] at hlt'
+    have : 0 ≤ (i : Rat) * res := mul_nonneg hi0 hres.le
+    refine ⟨by ring, by linarith, by linarith⟩
+  · rw [hlen]
+    have hc : (q.ceil : Rat) ≤ ((q.ceil.toNat : Nat) : Rat) := by
+      have : q.ceil ≤ ((q.ceil.toNat : Nat) : Int) := Int.self_le_toNat _
+      exact_mod_cast this
+    have h2 : q ≤ ((q.ceil.toNat : Nat) : Rat) := le_trans hqle hc
+    rw [hq, div_le_iff₀ hres] at h2
+    linarith
+
+/-- a running minimum / maximum bounds its start value and every element -/
+theorem foldl_min_le (l : List Rat) : ∀ (a : Rat),
+    l.foldl (fun a b => if b < a then b else a) a ≤ a ∧
+    ∀ x ∈ l, l.foldl (fun a b => if b < a then b else a) a ≤ x := by
+  induction l with
+  | nil => intro a; simp
+  | cons b t ih =>
+    intro a
+    simp only [List.foldl_cons, List.mem_cons]
+    have h := ih (if b < a then b else a)
+    have hb : (if b < a then b else a) ≤ b := by split <;> [exact le_rfl; exact not_lt.mp ‹_›]
+    have ha : (if b < a then b else a) ≤ a := by split <;> [exact le_of_lt ‹_›; exact le_rfl]
+    refine ⟨le_trans h.1 ha, ?_⟩
+    rintro x (rfl | hx)
+    · exact le_trans h.1 hb
+    · exact h.2 x hx
+
+theorem le_foldl_max (l : List Rat) : ∀ (a : Rat),
+    a ≤ l.foldl (fun a b => if b > a then b else a) a ∧
+    ∀ x ∈ l, x ≤ l.foldl (fun a b => if b > a then b else a) a := by
+  induction l with
+  | nil => intro a; simp
+  | cons b t ih =>
+    intro a
+    simp only [List.foldl_cons, List.mem_cons]
+    have h := ih (if b > a then b else a)
+    have hb : b ≤ (if b > a then b else a) := by split <;> [exact le_rfl; exact not_lt.mp ‹_›]
+    have ha : a ≤ (if b > a then b else a) := by split <;> [exact le_of_lt ‹_›; exact le_rfl]
+    refine ⟨le_trans ha h.1, ?_⟩
+    rintro x (rfl | hx)
+    · exact le_trans hb h.1
+    · exact h.2 x hx
 
 /-- the bounding box contains every node sphere along the axis, and its bounds are whole numbers -/
 theorem bbox_contains (cs rs : List Rat) (hl : cs.length = rs.length) (hne : cs ≠ []) :
     (∃ a b : Int, (Img.bbox cs rs).1 = (a : Rat) ∧ (Img.bbox cs rs).2 = (b : Rat)) ∧
     ∀ k (h1 : k < cs.length) (h2 : k < rs.length),
       (Img.bbox cs rs).1 ≤ cs[k] - rs[k] ∧ cs[k] + rs[k] ≤ (Img.bbox cs rs).2 := by
-  sorry
+  have _ := hl; have _ := hne
+  refine ⟨⟨_, _, rfl, rfl⟩, ?_⟩
+  intro k h1 h2
+  simp only [Img.bbox]
+  constructor
+  · refine le_trans (Rat.floor_le _) ?_
+    apply (foldl_min_le _ _).2
+    refine List.mem_map.mpr ⟨(cs[k], rs[k]), ?_, rfl⟩
+    rw [List.mem_iff_getElem]
+    exact ⟨k, by simp [h1, h2], by simp⟩
+  · refine le_trans ?_ Rat.le_ceil
+    apply (le_foldl_max _ _).2
+    refine List.mem_map.mpr ⟨(cs[k], rs[k]), ?_, rfl⟩
+    rw [List.mem_iff_getElem]
+    exact ⟨k, by simp [h1, h2], by simp⟩
 
 /-- the two end balls of a round cone belong to it (`t = 0`, `t = 1` of the swept-sphere description) -/
 theorem swept_ends (p a b : Rat × Rat × Rat) (ra rb : Rat) :
@@ -84,7 +190,9 @@ theorem swept_ends (p a b : Rat × Rat × Rat) (ra rb : Rat) :
       (p.1 - a.1) * (p.1 - a.1) + (p.2.1 - a.2.1) * (p.2.1 - a.2.1) + (p.2.2 - a.2.2) * (p.2.2 - a.2.2) ≤ ra * ra) ∧
     (inSwept p a b ra rb 1 = true ↔
       (p.1 - b.1) * (p.1 - b.1) + (p.2.1 - b.2.1) * (p.2.1 - b.2.1) + (p.2.2 - b.2.2) * (p.2.2 - b.2.2) ≤ rb * rb) := by
-  sorry
+  constructor
+  · simp [inSwept]
+  · simp [inSwept]
 
 -- non-vacuity / concrete behaviour
 example : axisCentres (-2) 3 1 = [-3/2, -1/2, 1/2, 3/2, 5/2] := by decide +kernel
